@@ -58,7 +58,7 @@ fn identity_line(rng: &mut Rng) -> Vec<u8> {
     let name = rng.pick(&[&b"A U Thor"[..], b"J\xc3\xb6rg \xe2\x80\x83M", b"", b"a17 >x", b"N<o", b"  pad  ", b"\xff\xfe", b"author committer", b"Al 17"]).to_vec();
     let email = rng.pick(&[&b"a@example.com"[..], b"", b"a17@e", b"x y@z", b"\xc3\xa9@e", b"old@example.com", b"OLD@example.com"]).to_vec();
     let ts = rng.pick(&[&b"1700000017"[..], b"0", b"1000", b"-5", b"+7", b"9223372036854775807", b"9223372036854775808", b"12x", b"", b"1.5", b"007"]).to_vec();
-    let tz = rng.pick(&[&b"+0100"[..], b"-0830", b"+0000", b"", b"UTC", b"+01 00"]).to_vec();
+    let tz = rng.pick(&[&b"+0100"[..], b"-0830", b"+0000", b"", b"UTC", b"+01 00", b"-0000", b"+1400", b"-1200", b"+0530", b"-0001", b"+9999", b"-0830", b"+0100"]).to_vec();
     let mut l = kw.to_vec();
     l.extend(name);
     if rng.chance(9, 10) { l.extend_from_slice(b" <"); } else { l.extend_from_slice(b"<"); }
